@@ -5,7 +5,7 @@ cd "$(dirname "$0")/.." || exit 2
 TIER=${1:-quick}; export VERIF_SEED=${2:-1}
 for p in C01 C02 C03 C04 C05 C06 C07 C08 C09 C10 C11 C12 C13 C14 C15 C16 C17 C18 C19 C20; do
   start=$(date +%s)
-  ./check $p --tier $TIER > /tmp/run_all_$p.log 2>&1; rc=$?
-  echo "$p rc=$rc $(( $(date +%s) - start ))s $(grep -c '^VIOLATION' /tmp/run_all_$p.log) violations; $(tail -1 /tmp/run_all_$p.log | cut -c1-160)"
-  if [ $rc -ne 0 ]; then grep -E "violation in|HARNESS-ERROR|KNOWN" /tmp/run_all_$p.log | cut -c1-400 | head -8; fi
+  ./check $p --tier $TIER > /tmp/run_all_${TIER}_${VERIF_SEED}_$p.log 2>&1; rc=$?
+  echo "$p rc=$rc $(( $(date +%s) - start ))s $(grep -c '^VIOLATION' /tmp/run_all_${TIER}_${VERIF_SEED}_$p.log) violations; $(tail -1 /tmp/run_all_${TIER}_${VERIF_SEED}_$p.log | cut -c1-160)"
+  if [ $rc -ne 0 ]; then grep -E "violation in|HARNESS-ERROR|KNOWN" /tmp/run_all_${TIER}_${VERIF_SEED}_$p.log | cut -c1-400 | head -8; fi
 done
